@@ -75,7 +75,8 @@ func c09() {
 
 	var plans []c09Plan
 	// every single-call combination
-	allFlags := []uint32{0, flagTSync, flagLog, flagTSync | flagLog, flagNewListener, flagUnknown, flagTSync | flagUnknown}
+	// 4 = SPEC_ALLOW, 0x10 = TSYNC_ESRCH (only valid together with TSYNC), 0x19 = TSYNC|NEW_LISTENER|TSYNC_ESRCH
+	allFlags := []uint32{0, flagTSync, flagLog, flagTSync | flagLog, flagNewListener, flagUnknown, flagTSync | flagUnknown, 4, flagTSync | 4, 0x10, flagTSync | 0x10, 0x19, flagTSync | flagNewListener}
 	for _, unpriv := range []bool{false, true} {
 		for _, fl := range allFlags {
 			for _, nnp := range []bool{true, false} {
@@ -88,7 +89,7 @@ func c09() {
 	}
 	// the divergent-filter pattern and variations
 	for _, unpriv := range []bool{false, true} {
-		for _, fl2 := range []uint32{flagTSync, flagTSync | flagLog} {
+		for _, fl2 := range []uint32{flagTSync, flagTSync | flagLog, flagTSync | 4, flagTSync | 0x10, 0x19, flagTSync | flagLog | 4} {
 			for _, first := range []uint32{0, flagLog} {
 				plans = append(plans, c09Plan{desc: fmt.Sprintf("divergent: A loads flags=%#x, B loads flags=%#x unprivileged=%v", first, fl2, unpriv), threads: 3, divergent: true, unprivileged: unpriv,
 					calls: []vlib.LoadCall{{Thread: 0, Op: "load", Flags: first, NNP: true, Policy: "valid0"}, {Thread: 1, Op: "load", Flags: fl2, NNP: true, Policy: "valid1"},
@@ -328,6 +329,8 @@ func c09() {
 						cls = "EINVAL-oversize"
 					case strings.Contains(errText, "invalid argument"):
 						cls = "EINVAL-flags"
+					case strings.Contains(errText, "no such process"):
+						cls = "tsync-refused-ESRCH"
 					case call.Flags&flagTSync != 0:
 						cls = "tsync-refused"
 					}
@@ -355,12 +358,12 @@ func c09() {
 		"amd64 host kernel only; unprivileged = uid/gid 65534 with all capabilities dropped by the credential change")
 	if run.Violations() == 0 {
 		run.Require("histories", int64(len(plans)*9/10))
-		for _, k := range []string{"assemble-error", "EINVAL-oversize", "EINVAL-flags", "EACCES", "tsync-refused"} {
+		for _, k := range []string{"assemble-error", "EINVAL-oversize", "EINVAL-flags", "EACCES", "tsync-refused", "tsync-refused-ESRCH"} {
 			run.Require("refusal:"+k, 1)
 		}
 		run.Require("nil_returns_checked", 30)
 		run.Require("supported_calls", 30)
 	}
 	run.Finish(run.Counter("calls"), int64(len(distinct)),
-		"histories of load/Supported/SetNoNewPrivs calls on pinned OS threads in fresh child processes: all 7 flag words x NNP x {valid, invalid name, invalid action, oversize, exactly 4096 instructions} x {root, uid 65534} single-call histories, the divergent-filter thread-sync pattern, a thread-sync chain, and PRNG histories of 1..6 calls over 2..5 threads; per-thread kernel state and probe outcomes compared around every call; distinct = distinct call sequences")
+		"histories of load/Supported/SetNoNewPrivs calls on pinned OS threads in fresh child processes: all 13 flag words (incl. SPEC_ALLOW, TSYNC_ESRCH, NEW_LISTENER combinations) x NNP x {valid, invalid name, invalid action, oversize, exactly 4096 instructions} x {root, uid 65534} single-call histories, the divergent-filter thread-sync pattern, a thread-sync chain, and PRNG histories of 1..6 calls over 2..5 threads; per-thread kernel state and probe outcomes compared around every call; distinct = distinct call sequences")
 }
